@@ -149,6 +149,49 @@ Theorem C13_genesis_from_eth1_refines_active :
 Proof. exact genesis_from_eth1_refines_active. Qed.
 Print Assumptions C13_genesis_from_eth1_refines_active.
 
+(* the epochs context returned with the state: its pubkey cache (the C16 cache model, filled by ProcessDeposit's
+   AddValidator calls) answers every lookup, after zrnt's `index < validator count` filter, exactly as the Spec's registry
+   scan find_pubkey does — the `epc_ok` pubkey-cache hypothesis of the block-level refinements (C01/C03) holds at genesis *)
+Theorem C13_genesis_cache_matches :
+  forall (E : Env) (pk_ok sig_ok : bytes -> bool) (eth1_block_hash : bytes) (eth1_timestamp : N) (deposits : list value)
+         (st : BeaconState) (pc : pubkey_cache),
+  (forall x, length (Hash E x) = 32%nat) -> length (zero_hashes E 2) = 32%nat ->
+  0 < EFFECTIVE_BALANCE_INCREMENT (cfg E) -> epc_params_ok E ->
+  (forall pk m s, bls_verify E pk m s = true -> pk_ok pk = true /\ sig_ok s = true) ->
+  eth1_timestamp + GENESIS_DELAY (cfg E) < two64 ->
+  N.of_nat (length deposits) <= 2 ^ 32 -> N.of_nat (length deposits) <= VALIDATOR_REGISTRY_LIMIT (cfg E) ->
+  sumN (map (fun dep => vuint (vfield (vfield dep 1) 2)) deposits) < two64 ->
+  Forall (fun dep => length (vbytes (vfield (vfield dep 1) 0)) = 48%nat /\
+                     Forall (fun b => b < 256) (vbytes (vfield (vfield dep 1) 0))) deposits ->
+  genesis_from_eth1_ctx E pk_ok sig_ok eth1_block_hash eth1_timestamp deposits false = Ok (st, pc) ->
+  initialize_beacon_state_from_eth1 E eth1_block_hash eth1_timestamp deposits = Some st /\
+  forall pk, (length pk = 48%nat /\ Forall (fun b => b < 256) pk) ->
+    exists o, pc_lookup pc pk = Ok o /\
+      option_map N.of_nat (match o with Some j => if Nat.ltb j (length (validators st)) then Some j else None | None => None end)
+      = find_pubkey pk (validators st) 0.
+Proof. exact genesis_cache_matches. Qed.
+Print Assumptions C13_genesis_cache_matches.
+
+(* the epochs-context computation at the end of GenesisFromEth1 (LoadShuffling: LoadBoundedIndices, GetSeed, NewShufflingEpoch for
+   the current = previous and the next epoch; LoadProposers: ComputeProposers — the C07 Impl models) on a state whose
+   registry is as the activation loop leaves it (effective balances capped; active at genesis only at the cap): it returns an
+   error exactly when no validator is active at the genesis epoch, and never panics *)
+Theorem C13_genesis_epc_refuses_only_without_active : forall (E : Env) (st : BeaconState),
+  epc_params_ok E -> length (randao_mixes st) = N.to_nat (EPOCHS_PER_HISTORICAL_VECTOR (cfg E)) ->
+  Forall (fun v => v_effective_balance v <= MAX_EFFECTIVE_BALANCE (cfg E) /\
+                   (is_active_validator v GENESIS_EPOCH = true -> v_effective_balance v = MAX_EFFECTIVE_BALANCE (cfg E)))
+         (validators st) ->
+  N.of_nat (length (validators st)) <= 2 ^ 32 ->
+  load_epc E st = check (negb (N.of_nat (length (get_active_validator_indices st GENESIS_EPOCH)) =? 0)).   (* check b = if b then Ok tt else Err *)
+Proof. exact load_epc_genesis. Qed.
+Print Assumptions C13_genesis_epc_refuses_only_without_active.
+
+(* NewBeaconStateView(spec) — the model's starting state — is the default value of the phase0 BeaconState type *)
+Theorem C13_empty_state_is_default : forall (E : Env),
+  empty_state E = state_of_value (cfg E) Phase0 (default_value (BeaconStateT (cfg E) Phase0)).
+Proof. exact empty_state_is_default. Qed.
+Print Assumptions C13_empty_state_is_default.
+
 (* (4) IsValidGenesisState (genesis time below the minimum -> false; count IsActive(v, GENESIS_EPOCH) with a uint64
    counter; count >= MIN_GENESIS_ACTIVE_VALIDATOR_COUNT) = the Spec's predicate *)
 Theorem C13_valid_genesis_refines : forall (E : Env) (st : BeaconState),
